@@ -892,12 +892,12 @@ Section Store.
   Definition writeback_scope (min4 min6 : N) (client : option scope) (scope_bits : N) : option scope :=
     match client with
     | Some c =>
-        (* ReadResponseScope: SCOPE 0 is "global"; a SCOPE longer than the family's address makes
-           addr.Prefix fail and the answer is treated as global too *)
-        if (scope_bits =? 0) || ((if sc_is4 c then 32 else 128) <? scope_bits) then None
+        (* ReadResponseScope: SCOPE 0 is "global"; a SCOPE longer than the family's address is read as
+           the whole address (since fix 9eb1ef6; before, addr.Prefix failed and the answer was shared) *)
+        if scope_bits =? 0 then None
         else
           (* ClampScope: never narrower than the source, never narrower than the policy's min_scope *)
-          let b := N.min scope_bits (sc_bits c) in
+          let b := N.min (N.min scope_bits (if sc_is4 c then 32 else 128)) (sc_bits c) in
           let floor := if sc_is4 c then min4 else min6 in
           Some (addr_prefix (sc_is4 c) (sc_addr c) (if floor <? b then floor else b))
     | None => None
